@@ -148,7 +148,8 @@ def correspond(ctx):
             m = decode(dcd, 127250, 0x0102030405060708, 8, src=9)
             if m is not None and not isinstance(m, Exception):
                 one(m, {"pgn": 127250, "payload": "0807060504030201", "src": 9, "after-big-claim": True})
-    r = run_cases("C15", "json", IMPORTS, "msg * option (jtree * msg)", "chk_json", cases, shard=120)
+    r = run_cases("C15", "json", IMPORTS, "msg * option (jtree * msg)", "chk_json", cases,
+                  shard=max(40, len(cases) // 16 + 1))
     r.update(name="to_json (parsed by the json module) vs to_tree; from_json vs of_tree; hypotheses msg_wf / reads_exact "
                   "lib_reads on decoder output",
              distinct_nontrivial=distinct_count([c for c, x in zip(cases, raw) if x.get("interesting")]),
@@ -167,11 +168,13 @@ def correspond(ctx):
     return reports
 
 
-def _dump_configs(rng, ids, pgns):
+KINDS = ["empty", "number", "id", "id-case", "mixed", "off", "miss"]
+
+
+def _dump_configs(rng, ids, pgns, k=None):
     def rc(s):
         return "".join(ch.upper() if rng.random() < 0.5 else ch.lower() for ch in s)
-    kinds = ["empty", "number", "id", "id-case", "mixed", "off", "miss"]
-    k = rng.choice(kinds)
+    k = k or rng.choice(KINDS)
     if k == "empty":
         return k, True, []
     if k == "off":
@@ -238,9 +241,9 @@ def _corr_dump(ctx):
     rng = ctx.rng
     cases, raw, idc, idraw = [], [], [], []
     unrep = 0
-    for _ in range(ctx.n(14, 80)):
+    for it in range(ctx.n(14, 84)):
         lines, ids, pgns = _history(rng, rng.randint(15, 40))
-        kind, dump_on, dump_pgns = _dump_configs(rng, ids, pgns)
+        kind, dump_on, dump_pgns = _dump_configs(rng, ids, pgns, KINDS[it % len(KINDS)])
         net = rng.random() < 0.5
         prefs = U.random_prefs(rng) if rng.random() < 0.4 else {}
         with Md5Proxy() as mp, NumProxy() as npx:
